@@ -1256,6 +1256,8 @@ class Evaluator:
         return ("tuple", tuple(self.ev(e, live) for e in n.elts))
 
     def e_List(self, n, live):
+        if len(n.elts) == 1 and isinstance(n.elts[0], ast.Starred) and "list" not in self.env:
+            return ("call", ("builtin", "list"), (self.ev(n.elts[0].value, live),), ())  # [*xs] is list(xs)
         return ("list", tuple(self.ev(e, live) for e in n.elts))
 
     def e_Set(self, n, live):
@@ -1425,6 +1427,18 @@ class Evaluator:
             named = sorted(kd.items(), key=lambda kv: kv[0])
         if f[0] == "global" and f[2] == "assign":
             f = self._getter_global(f)
+        if f[0] == "global" and f[2] == "class" and self._is_record(("call", f, (), ())):
+            # Rec(values=[], col=[]): each empty display is its own accumulator
+            def ident(node, val, nm):
+                if isinstance(node, (ast.List, ast.Dict, ast.Set)) and not getattr(node, "elts", getattr(node, "keys", None)):
+                    kind = {"List": "list", "Dict": "dict", "Set": "set"}[type(node).__name__]
+                    key = f"{nm}@{node.lineno}:{node.col_offset}"
+                    self.alloc_loops[key] = tuple(self.loop_stack)
+                    return ("alloc", kind, key)
+                return val
+            args = [ident(a_, v_, f"arg{i_}") for i_, (a_, v_) in enumerate(zip(n.args, args))]
+            kwn = {k.arg: k.value for k in n.keywords if k.arg is not None}
+            named = [(k_, ident(kwn[k_], v_, k_) if k_ in kwn else v_) for k_, v_ in named]
         norm = self._norm_call(f, args, named, spreads, live, n)
         if norm is not None:
             return norm
